@@ -9,7 +9,7 @@
    parked events may be received in any order.  `wf ops`: call identifiers are fresh. *)
 From Coq Require Import List NArith.
 From K.Model Require Import C17.
-From K.Proof Require C17.
+From K.Proof Require C17 C17_kinds.
 Import ListNotations.
 Local Open Scope N_scope.
 
@@ -121,6 +121,13 @@ Theorem C17_success_when_cached : forall c kn ops w,
   wf ops = true -> In (w, RNil) (results (run c kn ops)) -> success_justified c kn ops w = true.
 Proof. exact Proof.C17.success_when_cached. Qed.
 Print Assumptions C17_success_when_cached.
+
+(* otherwise an error: the results sent are success, not found, timed out, removed or stopped *)
+Theorem C17_result_kinds : forall c kn ops w r,
+  In (w, r) (results (run c kn ops)) ->
+  r = RNil \/ r = RNotFound \/ r = RTimeout \/ r = RRemoved \/ r = RStopped.
+Proof. exact Proof.C17_kinds.result_kinds. Qed.
+Print Assumptions C17_result_kinds.
 
 (* executable form evaluated on observed schedules *)
 Theorem C17_check_sound : forall c kn ops,
